@@ -158,11 +158,9 @@ structure OpRef where
 
 def strLe (a b : String) : Bool := a ≤ b
 
-/-- `GatherOperations(specDoc, nil)`: operations by name (operation id, or the derived key) -/
-def gatherOperations (x : Ext) (idx : List Ent) : Outcome (List (String × OpRef)) := do
-  let ops := Index.ops idx
-  -- the analyzer keeps one operation per (METHOD, path): last insertion wins
-  let ops := ops.foldl (fun acc o => (acc.filter fun p => !(p.1 == o.1 && p.2.1 == o.2.1)) ++ [o]) []
+/-- the body of `GatherOperations` once the operations of the analyzer have been listed: one `OpRef` per
+    operation, sorted by key, then registered by name (operation id, or the derived key) -/
+def gatherFrom (x : Ext) (ops : List (String × String × J)) : Outcome (List (String × OpRef)) := do
   let oprefs ← ops.mapM fun o => do
     let key ← ask "goName" x.goName (Str.toLowerAscii o.1 ++ " " ++ o.2.1)
     let ref ← ask "mkRef" x.mkRef ("#" ++ Str.join ["/paths", Str.esc o.2.1, o.1])
@@ -175,6 +173,13 @@ def gatherOperations (x : Ext) (idx : List Ent) : Outcome (List (String × OpRef
       | none => nm
     let opr := { opr with id := nm }
     (acc.filter fun p => p.1 ≠ nm) ++ [(nm, opr)]) []
+
+/-- `GatherOperations(specDoc, nil)`: operations by name (operation id, or the derived key) -/
+def gatherOperations (x : Ext) (idx : List Ent) : Outcome (List (String × OpRef)) :=
+  let ops := Index.ops idx
+  -- the analyzer keeps one operation per (METHOD, path): last insertion wins
+  let ops := ops.foldl (fun acc o => (acc.filter fun p => !(p.1 == o.1 && p.2.1 == o.2.1)) ++ [o]) []
+  gatherFrom x ops
 
 /-- `AllOpRefsByRef`: the same operations indexed by their `$ref` string -/
 def opRefsByRef (x : Ext) (idx : List Ent) : Outcome (List (String × OpRef)) := do
